@@ -655,6 +655,7 @@ def odd_inputs_pass(rng, rec):
         knobs["size_arg_int_zero"] = True
         knobs["max_bytes"] = 0
         knobs["size_class"] = "zero-int"
+    rng.random()  # (was: object names that are not valid Unicode - withdrawn, see DESIGN 15.4 s213; the draw is kept)
     if rec["property"] == "C19" and rng.random() < 0.08:
         # (c) downloads and post-processors that fail with an exception deriving from Warning (a numpy/xarray
         # warning in a process run with -W error)
